@@ -103,15 +103,22 @@ CLAIMS = {
     note=_corr + "tree <=> connected for n-1 edges not restated; f64 rounding modelled.",
     technique="Lean 4 proof (loop invariants by induction over the triangulation, field algebra) + differential correspondence + model-free oracle"),
  "C10": dict(
-    text="Lean 4 theorems: naming of lifted quotes (C10_naming); refused updates change nothing (C10_refused_update_noop); "
-         "an accepted update is exactly the market rebuilt from the latest quotes (C10_update_is_rebuild); order switches "
-         "keep quotes and currencies (C10_order_keeps_quotes), lowering projects values (C10_lowering_projects), and the "
-         "first-order matrix has the zero-order matrix as values via a homomorphism theorem for the triangulation "
-         "(C10_order_keeps_values, over ℝ). PARTIAL: the +-rate/quote sensitivity statement follows from C09 + C01/C02 "
-         "compositionally and is checked by correspondence and a model-free oracle, not restated as one theorem.",
+    text="Lean 4 theorems: naming of lifted quotes (C10_naming); refused updates change nothing "
+         "(C10_refused_update_noop); an accepted update is exactly the market rebuilt from the latest quotes "
+         "(C10_update_is_rebuild); order switches keep quotes and currencies (C10_order_keeps_quotes), lowering "
+         "projects values (C10_lowering_projects), and the first-order matrix has the zero-order matrix as values, bit "
+         "for bit, via a homomorphism theorem for the triangulation (C10_order_keeps_values, for EVERY scalar type "
+         "incl. f64 itself - true of the code since the repair of f64 / Dual). SENSITIVITIES (Proofs/FXSens.lean): the "
+         "triangulation preserves every relation closed under its arithmetic; hence (C10_sensitivity) for plain-number "
+         "quotes the sensitivity of EVERY cross i/j to fx_<q0> is (s_i - s_j) * cross / quote with s the cut that q0 "
+         "alone crosses (the two sides of the edge in the tree): +cross/quote or -cross/quote on the path (sign by "
+         "direction of travel), 0 off it (C10_sensitivity_cases); C10_sensitivity_general for quotes that are already "
+         "dual numbers; second order C10_second_order_same (1/2 cross (s^2 - s)/quote^2) and C10_second_order_cross "
+         "(1/2 cross s0 s1/(quote0 quote1)).",
     design_ref="DESIGN.md §3 C10",
-    note=_corr + "sensitivity formula not a single theorem (partial).",
-    technique="Lean 4 proof (state machine, homomorphism/parametricity of the triangulation) + differential correspondence + model-free oracle"),
+    note=_corr + "the existence of a cut for every edge of a tree, like the potential u of C09, is a hypothesis (graph theory "
+         "not restated).",
+    technique="Lean 4 proof (state machine, homomorphism/parametricity and relation-preservation of the triangulation) + differential correspondence + model-free oracle"),
  "C11": dict(
     text="Lean 4 theorems: index_left terminates and returns the clamped bracketing interval for every list of >= 2 nodes "
          "and every query (C11_index_left, by induction over the recursive bisection incl. its n == 3 special case), which "
@@ -136,43 +143,65 @@ CLAIMS = {
     note=_corr + "theorems over ℝ; f64 rounding modelled.",
     technique="Lean 4 proof over state-machine model of set_ad_order + differential correspondence"),
  "C13": dict(
-    text="Lean 4 + Mathlib theorems over the model of dsolve21_/dsolve_upper21_/argabsmax/row and element swaps: over ANY "
-         "commutative ring with division, for every size n, every matrix, right-hand side and pivot-comparison function, "
-         "if every pivot divided by satisfies x/p*p = x then A x = b (C13_sound; loop invariants: rows operations preserve "
-         "the solution set, explicit zeroing is a genuine row operation, back substitution solves the triangular system); "
-         "instantiated for fields (C13_sound_field: pivot != 0) and for Mathlib's dual numbers TrivSqZeroExt ℝ ℝ "
-         "(C13_sound_dual_numbers: pivot VALUE != 0, so A x = b holds in value and first derivative); normal equations "
-         "(C13_lsq); row order irrelevant when the solution is unique (C13_row_order_irrelevant). Over an ordered field with "
-         "the code's magnitude pivot rule a system with exactly one solution never meets a zero pivot and the solver "
-         "returns that solution (C13_nonsingular, kernel-vector argument; C13_absGe_real: at ℝ this is the model's own "
-         "comparison). PARTIAL: the per-name refinement of list-based Dual/Dual2 arithmetic to these rings inside the "
-         "solver is covered by correspondence only.",
+    text="Lean 4 + Mathlib theorems over the model of dsolve21_/dsolve_upper21_/argabsmax/row and element swaps: over "
+         "ANY commutative ring with division, for every size n, every matrix, right-hand side and pivot-comparison "
+         "function, if every pivot divided by satisfies x/p*p = x then A x = b (C13_sound; loop invariants: row "
+         "operations preserve the solution set, explicit zeroing is a genuine row operation, back substitution solves "
+         "the triangular system); fields (C13_sound_field) where the solution is then the only one (C13_complete); "
+         "Mathlib's dual numbers TrivSqZeroExt R R (C13_sound_dual_numbers); normal equations (C13_lsq); row order "
+         "irrelevant when the solution is unique (C13_row_order_irrelevant); over an ordered field with the code's "
+         "magnitude pivot rule a uniquely solvable system never meets a zero pivot and the solver returns that "
+         "solution (C13_nonsingular; C13_absGe_real, C13_geR: at R this is the model's own comparison). LIST-LEVEL "
+         "DUAL-NUMBER MATRICES (Proofs/LinHom.lean, Proofs/Jet2Ring.lean): the generic solver commutes with every "
+         "homomorphism of its arithmetic incl. pivot choices; the (value, sensitivity-to-v) projection of first-order "
+         "numbers into R[e]/(e^2) and the directional 2-jet of second-order numbers into R[e]/(e^3) (CommRing instance "
+         "built here) are such homomorphisms for all layouts (C13_dual_matrix_refines, C13_dual2_matrix_refines, "
+         "C13_lsq_refines); for a regular value system A x = b holds in value, every first derivative "
+         "(C13_dual_matrix) and, as 2-jets along every direction, every second derivative (C13_dual2_matrix) carried "
+         "by A or b. Float matrix, dual right-hand sides: C13_dual_rhs, C13_dual2_rhs (linearity).",
     design_ref="DESIGN.md §3 C13",
-    note=_corr + "conditioning/rounding not modelled; Dual->ring refinement inside the solver not proved (partial).",
-    technique="Lean 4 + Mathlib proof (loop invariants over folds, Finset sums, ring algebra) + differential correspondence"),
+    note=_corr + "conditioning/rounding not modelled (theorems over rings/fields/R).",
+    technique="Lean 4 + Mathlib proof (loop invariants over folds, Finset sums, ring algebra, homomorphism transport into R[e]/(e^2) and R[e]/(e^3)) + differential correspondence"),
  "C14": dict(
-    text="Lean 4 + Mathlib theorems over ℝ for EVERY order K >= 1 and EVERY non-decreasing knot list with K-fold end knots "
-         "(any interior multiplicity): the model's bsplev (support short-circuit, right-end-point rule with org_k, half-open "
-         "order-1 indicator, zero-width guards) equals the pure Cox-de Boor recursion strictly before the last knot "
-         "(C14_is_cox_de_boor), is 1/0 at the right end point (C14_right_end), is non-negative (C14_nonneg), vanishes outside "
-         "its k spans (C14_support), and the n basis functions sum to one everywhere in the domain incl. interior knots and "
-         "the right end point (C14_partition_of_unity, by the telescoping induction on the order); derivative orders m >= k "
-         "vanish and m = 0 is the value (C14_deriv_high, C14_deriv_zero). PARTIAL: bspldnev = one-sided derivative of the "
-         "piecewise polynomial for 0 < m < k is covered by correspondence (all m, all knots/end points) only.",
+    text="Lean 4 + Mathlib theorems over R for EVERY order K >= 1 and EVERY non-decreasing knot list with K-fold end "
+         "knots (any interior multiplicity): the model's bsplev (support short-circuit, right-end-point rule with "
+         "org_k, half-open order-1 indicator, zero-width guards) equals the pure Cox-de Boor recursion strictly before "
+         "the last knot (C14_is_cox_de_boor), is 1/0 at the right end point (C14_right_end), is non-negative "
+         "(C14_nonneg), vanishes outside its k spans (C14_support), and the n basis functions sum to one everywhere in "
+         "the domain incl. interior knots and the right end point (C14_partition_of_unity). DERIVATIVES "
+         "(Proofs/BSplineDeriv.lean, Mathlib HasDerivWithinAt): at every point strictly before the last knot, interior "
+         "knots of any multiplicity and the left end point included, the order-(m+1) output of bspldnev is the RIGHT "
+         "derivative of the order-m output as a function of the abscissa (C14_right_derivative) and is given by the "
+         "derivative recursion over the Cox-de Boor functions (C14_derivative_recursion); at the last knot it is the "
+         "LEFT derivative (C14_left_derivative_at_right_end), the right-end-point rule with the carried ORIGINAL order "
+         "yielding the left-continuous representative of the same piecewise polynomial (C14_right_end_derivatives, "
+         "C14_one_piecewise_polynomial); order 0 is the value and orders m >= k vanish (C14_deriv_zero, "
+         "C14_deriv_high).",
     design_ref="DESIGN.md §3 C14",
-    note=_corr + "derivative identification for 0 < m < k not proved (partial); f64 rounding modelled.",
-    technique="Lean 4 + Mathlib proof (induction on the order, Finset telescoping) + differential correspondence + model-free oracle"),
+    note=_corr + "f64 rounding not modelled (theorems over R); the right-end statements assume the last knot has multiplicity "
+         "exactly K.",
+    technique="Lean 4 + Mathlib proof (induction on the order, Finset telescoping, one-sided derivatives within half-lines) + differential correspondence + model-free oracle"),
  "C15": dict(
-    text="Lean 4 + Mathlib theorems: over any field, after csolve the spline satisfies every collocation condition - value "
-         "at interior sites, left_n/right_n-th derivative at the two end sites - whenever the elimination meets no zero "
-         "pivot (C15_collocation, from the C13 soundness theorem and fdsolve21 = dsolve21 over fields); site-count errors "
-         "(C15_len_errors), unsolved-evaluation error (C15_unsolved_error), coefficient shape (C15_csolve_shape). PARTIAL: "
-         "polynomial reproduction, data sensitivity = unit-data spline, dual-abscissa chain rule: correspondence (coefficients, "
-         "values, derivatives, gradients by name, all spline x abscissa type pairings) and a model-free oracle (polynomial "
-         "data of degree < k reproduced with all derivatives).",
+    text="Lean 4 + Mathlib theorems: after csolve the spline satisfies every collocation condition - value at interior "
+         "sites, left_n/right_n-th derivative at the two end sites - whenever the elimination meets no zero pivot "
+         "(C15_collocation); site-count errors (C15_len_errors), unsolved-evaluation error (C15_unsolved_error), "
+         "coefficient shape (C15_csolve_shape). POLYNOMIAL REPRODUCTION: Marsden's identity for the model's basis on "
+         "every span and the whole domain incl. the right end point (Proofs/Marsden.lean), hence every polynomial of "
+         "degree < k is a spline with ALL derivatives (C15_polynomials_are_splines); a system with no zero pivot has "
+         "exactly one solution (C15_solver_complete); therefore a spline solved on data from a polynomial of degree < "
+         "k (values at interior sites, prescribed derivatives at end sites) equals it with all derivatives everywhere "
+         "in the domain, knots and both end points included (C15_polynomial_reproduction). DERIVATIVES / DUAL "
+         "ABSCISSAE: the order-(m+1) evaluation is the one-sided derivative of the order-m evaluation "
+         "(C15_spline_derivative, C15_spline_derivative_right_end); at a dual abscissa value = plain evaluation, "
+         "sensitivities S'(x) dx and S'(x) 1/2 d2x + 1/2 S''(x) dx dx (C15_dual_abscissa, C15_dual2_abscissa); with "
+         "dual coefficients product + chain rule (C15_dual_abscissa_dual_coeffs by names, "
+         "C15_dual2_abscissa_dual2_coeffs as 2-jets along every direction). DATA SENSITIVITIES: C15_data_sensitivity, "
+         "C15_data_value, C15_data_sensitivity2 (sensitivity to each name = spline solved on the data's sensitivities, "
+         "i.e. the unit-data spline for one tag per datum).",
     design_ref="DESIGN.md §3 C15",
-    note=_corr + "Schoenberg-Whitney non-singularity is a hypothesis (PivotsGood); Marsden/reproduction not proved (partial).",
-    technique="Lean 4 + Mathlib proof (composition of C13 soundness with the collocation matrix) + differential correspondence + model-free oracle"),
+    note=_corr + "Schoenberg-Whitney non-singularity is a hypothesis (no zero pivot); the tall least-squares branch is not "
+         "covered by the reproduction theorem (correspondence + oracle); f64 rounding not modelled.",
+    technique="Lean 4 + Mathlib proof (C13 soundness/completeness composed with the collocation matrix, Marsden identity via polynomial coefficients, one-sided derivatives, module homomorphisms) + differential correspondence + model-free oracle"),
  "C16": dict(
     text="Lean 4 theorems: the bincode wire format of Dual, Dual2, Number, PPSpline (3 types), FXRates (quotes + currencies "
          "only), NamedCal (name only) and Curve (typed node map, interpolator, id, convention, modifier, index base, named calendar), modelled from serde's derive layout, round-trips for every value whose sizes fit "
@@ -226,7 +255,8 @@ CLAIMS = {
          "oracle rejects any panic/abort and any returned value that breaks a shape invariant. The run exposed seven "
          "genuine defects (abort on bad NamedCal/FXRates documents, panic on an empty currency list, csolve panic on "
          "singular systems, unvalidated Dual/Dual2, Ccy/FXPair and PPSpline documents), all repaired (known_findings.json). "
-         "PARTIAL: Curve documents are not modelled (oracle only); termination of the adjustment loops is under the "
+         "Curve documents are modelled as well (C20_load_curve: derived visitors, the i64-keyed node map read from the raw "
+         "key text, unit-variant enums, CalType). PARTIAL: termination of the adjustment loops is under the "
          "hypothesis that a business day is within `fuel` days (false only for a calendar with no working weekday).",
     design_ref="DESIGN.md §3 C20",
     note="Trusted: Lean kernel; the hand-written model's placement of panic markers (validated by catch_unwind on every "
